@@ -201,6 +201,10 @@ def join_byte_intervals(
             for bi in intervals:
                 if bi.module is not None:
                     aux_data = table_def.get(bi.module)
+                    if aux_data and bi is intervals[0] and bi not in aux_data:
+                        # The destination must map to a live sub-dict too, or
+                        # the entries moved into it below would be dropped.
+                        aux_data[bi] = {}
                     if aux_data and bi in aux_data:
                         table[bi] = aux_data[bi]
             if len(table) > 0:
